@@ -277,6 +277,9 @@ def run(ctx):
     import render as _render
     _render.layer_image_unconditional(ctx, rule='R5')
     _render.order(ctx, rule='R5')
+    import C09 as _c09
+    import rule as _R
+    _c09.level_source(_R.View(ctx, {'V7': 'R5'}))      # "visible" rests on the nesting levels as the file gives them (seed C19-k: u8)
     _render.gate(ctx, rule='R5')          # 'exactly one visible layer': the frame draws a cel iff Layer::is_visible of its layer
     _render.image_delegation(ctx, rule='R5')
 
